@@ -704,7 +704,7 @@ fn kind_property(kind: &str) -> &'static str {
 
 fn main() {
     if let Some(job) = child_job() {
-        vcommon::quiet_panics();
+        vcommon::quiet_panics_keep_first();
         child(&job);
         return;
     }
@@ -798,7 +798,12 @@ fn main() {
                         // The child died without a result (abort inside loom): treat as a violation
                         // witness with the stderr tail, it is deterministic and replayable.
                         let tail: String = r.stderr.lines().rev().take(6).collect::<Vec<_>>().join(" | ");
-                        per_prog.insert(n.clone(), json!({"prog": n, "violation": format!("child aborted: {tail}")}));
+                        // The first panic is the verdict; the abort is only how the process ended.
+                        let msg = match vcommon::first_panic_of(&r.stderr) {
+                            Some(first) => format!("{first} [the child then aborted: {tail}]"),
+                            None => format!("child aborted: {tail}"),
+                        };
+                        per_prog.insert(n.clone(), json!({"prog": n, "violation": msg}));
                     }
                 }
             }
